@@ -66,6 +66,25 @@ def gen_script(rng: Rng, tag: str) -> dict:
             f"    return {rng.choice([b for b in BINOPS if b.startswith('op.')]).format('p', 'q')}",
             "",
         ]
+    # a deeper call graph: f -> mid_i -> leaf_i (several branches), so that the set of transitively called
+    # functions has to be collected and ordered when the model proto is built
+    mids: list[str] = []
+    if rng.chance(0.35):
+        nb = rng.randint(2, 4)
+        stems = _names(rng, nb)
+        for i in range(nb):
+            leaf, mid = f"leaf_{stems[i]}_{tag}", f"mid_{stems[i]}_{tag}"
+            lines += [
+                "@script()",
+                f"def {leaf}(p: FLOAT['N']) -> FLOAT['N']:",
+                f"    return {rng.choice(['op.Neg(p)', 'op.Abs(p)', 'op.Relu(p)', 'op.Exp(p)', 'op.Tanh(p)'])}",
+                "",
+                "@script()",
+                f"def {mid}(p: FLOAT['N'], q: FLOAT['N']) -> FLOAT['N']:",
+                f"    return {rng.choice([b for b in BINOPS if b.startswith('op.')]).format(leaf + '(p)', 'q')}",
+                "",
+            ]
+            mids.append(mid)
     dec = "@DEC" if rng.chance(0.3) else "@script()"
     fname = f"f_{tag}"
     body: list[str] = []
@@ -74,6 +93,9 @@ def gen_script(rng: Rng, tag: str) -> dict:
         body.append(f"{ind}{v} = {_expr(rng, ['x', 'y'] + vs[:i])}")
     if use_helper:
         body.append(f"{ind}{vs[0]} = helper_{tag}({vs[0]}, x)")
+    for j, mid in enumerate(mids):
+        tgt = vs[j % len(vs)]
+        body.append(f"{ind}{tgt} = {mid}({tgt}, {rng.choice(['x', 'y'])})")
 
     def block_assign(names: list[str], depth_ind: str, avail: list[str]) -> list[str]:
         out = []
